@@ -178,7 +178,7 @@ def verifyKey : Option Verify → String
   | none => "none"
   | some v => s!"{showL v.bundleId}|{showL v.hostname}|{showL v.rootCAPath}"
 
-def modelLine (repaired : Bool) (line : String) : Except String String := do
+def modelLine (line : String) : Except String String := do
   let j ← Json.parse line
   let obs ← j.getObjVal? "obs"
   if (optField obs "panic").isSome then return "skip panic"
@@ -248,7 +248,7 @@ def modelLine (repaired : Bool) (line : String) : Except String String := do
       if sel.map (fun b => (b.ns, b.name)) != implBtp then
         diffs := diffs ++ [s!"rule {showL route}#{idx}: selected policy model={sel.map (showL ·.name)} impl={implBtp.map (showL ·.2)}"]
       pols := pols ++ [sel]
-    let mm := refs.length > 1 && (if repaired then mismatchRepaired pols else mismatch pols)
+    let mm := refs.length > 1 && mismatch pols
     if mm then
       mismatchCount := match mismatchCount.find? (·.1 = route) with
         | some _ => mismatchCount.map fun (k, n) => if k = route then (k, n + 1) else (k, n)
@@ -304,15 +304,12 @@ def loopLine (line : String) : Except String String := do
   let cmp (model impl : String) : String := if model = impl then "ok" else s!"diff model={model} impl={impl}"
   match k with
   | "mismatch" =>
-    -- the faithful loop, or the repaired one once the candidate fix of notes/C16.md is applied; the plugin
-    -- requires ONE variant to explain every line
     let pols ← (← reqArr j "in").mapM parsePolSpec
     let impl ← reqBool j "out"
-    let f := mismatch pols
-    let r := pols.length > 1 && mismatchRepaired pols   -- the real function is only called with > 1 backends
-    let r := if pols.length > 1 then r else mismatchRepaired pols
-    return if f = impl && r = impl then "ok" else if f = impl then "ok faithful" else if r = impl then "ok repaired"
-      else s!"diff model={f} repaired={r} impl={impl}"
+    let m := mismatch pols
+    return if m = impl then "ok"
+      else if mismatchPre pols = impl then s!"diff model={m} impl={impl} (the code behaves like the loop before fix e38b1f9)"
+      else s!"diff model={m} impl={impl}"
   | "morespecific" =>
     let a ← reqStr j "a"
     let b ← reqStr j "b"
@@ -365,10 +362,9 @@ def driver (args : List String) : IO UInt32 := do
   let stdout ← IO.getStdout
   match args with
   | ["judge"] => NGF.Proto.forEachLine stdin fun l => stdout.putStrLn (run judgeLine l)
-  | ["model"] => NGF.Proto.forEachLine stdin fun l => stdout.putStrLn (run (modelLine false) l)
-  | ["model-repaired"] => NGF.Proto.forEachLine stdin fun l => stdout.putStrLn (run (modelLine true) l)
+  | ["model"] => NGF.Proto.forEachLine stdin fun l => stdout.putStrLn (run modelLine l)
   | ["loop"] => NGF.Proto.forEachLine stdin fun l => stdout.putStrLn (run loopLine l)
-  | _ => IO.eprintln "usage: C16 judge|model|model-repaired|loop"; return 2
+  | _ => IO.eprintln "usage: C16 judge|model|loop"; return 2
   return 0
 
 end NGF.TlsDriver
